@@ -257,7 +257,7 @@ class _FakeB64:
         return b"B64:" + b
 
 
-C_UPG = ["websocket", "WebSocket", "h2c"]
+C_UPG = ["WebSocket", "h2c"]
 C_CONN = ["Upgrade", "keep-alive", None]
 C_EXT = [None, "permessage-deflate", "permessage-deflate; client_max_window_bits=10", "x-foo",
          "permessage-deflate, x-foo", "permessage-deflate; bogus=1"]
@@ -276,6 +276,13 @@ def pre_client(key: str, accept: str, acc_mode: int, cu: int, cc: int, ce: int, 
         return False
     if acc_mode != 1 and accept != "":
         return False
+    # reach twins only: steer the witness search (a subset of the bounds above)
+    if P.reach == "client_accepts":
+        return acc_mode == 0 and cu == 0 and cc == 0 and ce == 0 and len(key) == 0
+    if P.reach == "client_rejects_unoffered_extension":
+        return acc_mode == 0 and cu == 0 and cc == 0 and ce == 3 and len(key) == 0
+    if P.reach == "client_rejects_wrong_accept":
+        return acc_mode == 2 and cu == 0 and cc == 0 and ce == 0 and len(key) == 0
     return in_shard(ce)
 
 
